@@ -1540,8 +1540,15 @@ impl ContextualHuffmanEncoder {
                 // O(1) array lookup instead of HashMap
                 let code = syms[context][symbol];
 
-                // Write bits using same format as original encoder
-                writer.write(code.bits as u64, code.bit_count as usize);
+                if code.bit_count == 0 {
+                    // No fast-table entry: the code does not fit in 16 bits or the
+                    // symbol is not in the tree. Take the code from the tree itself
+                    // (or fail) instead of emitting bits the decoder cannot map back.
+                    self.write_code_from_tree(&mut writer, context, symbol as u8)?;
+                } else {
+                    // Write bits using same format as original encoder
+                    writer.write(code.bits as u64, code.bit_count as usize);
+                }
 
                 // Update context to current symbol
                 contexts[n] = symbol;
@@ -1612,6 +1619,36 @@ impl ContextualHuffmanEncoder {
         }
 
         Ok(output)
+    }
+
+    /// Slow path of `encode_xn` for (context, symbol) pairs without a fast-table entry
+    /// (code longer than 16 bits): write the full code taken from the context's tree.
+    /// Returns an error if the symbol has no code in that tree.
+    fn write_code_from_tree(
+        &self,
+        writer: &mut BitStreamWriter,
+        context: usize,
+        symbol: u8,
+    ) -> Result<()> {
+        // Same context -> tree mapping as the fast symbol table and the decoder
+        let tree_idx = if context == 256 {
+            0
+        } else {
+            *self.context_map.get(&(context as u32)).unwrap_or(&0)
+        };
+
+        let code = self.trees[tree_idx].get_code(symbol).ok_or_else(|| {
+            ZiporaError::invalid_data(format!(
+                "Symbol {} not found in Huffman tree for context {}",
+                symbol, context
+            ))
+        })?;
+
+        for &bit in code {
+            writer.write(bit as u64, 1);
+        }
+
+        Ok(())
     }
 
     /// Build fast lookup table for encoding: (context, symbol) -> HuffmanSymbol
@@ -1698,26 +1735,25 @@ impl ContextualHuffmanEncoder {
 
             // Build codes for all symbols in this tree
             for symbol in 0..=255u8 {
+                // Entries keep the default `bit_count == 0` (= no entry) when the symbol
+                // is not in the tree or its code does not fit in the 16 bits of
+                // `HuffmanEncSymbol`; `encode_xn` handles those on its slow path.
                 if let Some(code) = tree.get_code(symbol) {
+                    if code.len() > 16 {
+                        continue;
+                    }
+
                     // Convert Vec<bool> to packed bits
                     let mut bits = 0u16;
                     let bit_count = code.len() as u16;
 
-                    // Safety: Huffman codes should not exceed 16 bits for byte alphabets
-                    // If they do, we truncate (very rare edge case)
-                    let safe_bit_count = bit_count.min(16);
-
-                    for (i, &bit) in code.iter().take(16).enumerate() {
+                    for (i, &bit) in code.iter().enumerate() {
                         if bit {
                             bits |= 1u16 << i;
                         }
                     }
 
-                    table[context][symbol as usize] = HuffmanEncSymbol::new(bits, safe_bit_count);
-                } else {
-                    // Symbol not in tree - use a default placeholder
-                    // This should not happen with properly built trees
-                    table[context][symbol as usize] = HuffmanEncSymbol::new(0, 1);
+                    table[context][symbol as usize] = HuffmanEncSymbol::new(bits, bit_count);
                 }
             }
         }
